@@ -5,6 +5,7 @@ RULE = ("random EEMS 2.0 / MPilot / mixed command files parsed and loaded by the
         "(convert_eems2_commands recorded) and compared with the Coq model; plus random valid typed v2 models "
         "over a CSV table compared with their documented v3 translation (structure and results). "
         "non-trivial = distinct source with at least one v2-style command carrying a renamed command name")
+RULE += (' Half of the models are loaded next to a project library whose commands are named like EEMS 2.0 commands; Windows-style file names; a field name that is both renamed by a READ and a result.')
 TRUSTED = ["reference EEMS 2.0 -> MPilot name table in drivers/c16_driver.py (documented mapping)"]
 ASSUMPTIONS = ["argument values restricted to printable ASCII strings, ints, finite floats, lists, tuples"]
 
